@@ -54,6 +54,9 @@ CHECKS = {
   "C16": ("Hypothesis histories + enumerated 2/3-event grid vs reference model (mixer_ref: exact cumulative start times, nearest-sample rule, late additions); closed-form drift clause; ControlStream read/assign interleavings",
           "add/next/take histories with integer, rational (exact .5 ties) and dyadic-float deltas, empty events, late additions, keep on/off and nine zero values (incl. a mutable vector type) are compared sample by sample with the model; 30-400 equal fractional deltas must start at nearest(d0+i*d) computed without accumulation; a negative delta raises ValueError and changes nothing; ControlStream yields the last assigned value at every read, alone and inside expressions. Sampled + 2646 enumerated mixes.",
           "Deltas as Q make 'count -= delta' exact; an exact half-sample tie starts at the earlier sample (the anchored 'count >= delta').", "3/C16"),
+  "C02": ("enumerated stage table (530 rows x parameters x k x source modes) + Hypothesis single stages, chains and fan-out schedules, observed through counting / pull-bounded sources",
+          "Every public stage has a table row (builder, need(k), domain): 0 reads at construction and at iter(), reads == need(j) after every output j <= k (<= for maximal rows), OverRead on a bounded source anywhere is a violation, so an eager stage fails instead of hanging; chains of 2-4 stages compose their need functions; tee/thub/copy fan-outs under generated consumer schedules read exactly as far as the furthest consumer. Enumerated per row in both tiers + sampled chains.",
+          "need(k) table written from the property and documented look-aheads; a filter's memory iterable (read at call time) and combinatoric itertools wrappers (read their pool by definition) are outside the claim; numpy-backed strategies not installed.", "3/C02"),
 }
 NOT_BUILT = "check not built yet in this session (planned in DESIGN.md section 3); no claim is made until it is"
 
